@@ -390,6 +390,9 @@ func (r *RectClip64) executeInternalPath64(path Path64) {
 		prev, ok2 := getLocation(r.rect, path[i])
 		for i <= highI && !ok2 {
 			i++
+			if i > highI {
+				break
+			}
 			prev, ok2 = getLocation(r.rect, path[i])
 		}
 		if i > highI {
@@ -974,7 +977,7 @@ func startLocsAreClockwise(startLocs []Location) bool {
 
 func getPathRectClipLine(op *OutPt2) Path64 {
 	var result Path64
-	if op == nil || op.prev == op.next {
+	if op == nil || op == op.next {
 		return result
 	}
 	op = op.next
